@@ -674,6 +674,10 @@ class NoPanic:
             u = B.upper(args[0], b)
             if u <= ISIZE_MAX // 64:
                 return self.rec(fn, b, "with_capacity", coarse(P, args[0]), "proved", "capacity <= %s" % u, trivial=(args[0][0] == "int"))
+            la = B.lin(args[0])
+            if isinstance(la[0], tuple) and la[0] and la[0][0] == "len" and 0 <= la[1] <= 4096:
+                return self.rec(fn, b, "with_capacity", coarse(P, args[0]), "typed",
+                                "capacity = length of a collection that already exists in memory + %d (allocation proportional to memory already held)" % la[1])
             return self.rec(fn, b, "with_capacity", coarse(P, args[0]), "open", "capacity is not bounded")
         if name == "from_elem" and len(args) == 2:
             u = B.upper(args[1], b)
